@@ -44,9 +44,9 @@ META = {
                  'C19_or_accepts_refuted', 'C19_loads', 'C19_loads_refuted_F14b', 'C19_loads_refuted_F14d',
                  'C19_loads_refuted_F14e', 'C19_loads_refuted_F14f', 'C19_wellformed', 'C19_names_resolve',
                  'C19_wellformed_refuted_F14c', 'C19_names_refuted_F14g', 'C19_deterministic',
-                 'C19_cli_atomic', 'C19_cli_valid_writes', 'C19_tables',
+                 'C19_cli_atomic', 'C19_cli_valid_writes', 'C19_tables', 'C19_infer_source_tie',
                  'C19_bool_values_model'],
-    'tables': ['SchemaTables'],
+    'tables': ['SchemaTables', 'SchemaInferAlg'],
     'level_text': ('Theorems proved in Coq for ALL JSON documents (any depth/width) and both flag settings about an executable model of the '
                    'generator: every document inside the decidable region schema_safe is loaded by the inferred root (C19_loads), every class '
                    'reference resolves to its own declaration and every name is a valid identifier (C19_names_resolve, C19_wellformed); outside '
